@@ -199,6 +199,17 @@ fn hostile_for_subject(ctx: &mut Ctx, acc: &mut Acc, id: &str, plan: &Plan, c05:
         }
         let nontrivial = if c05 { true } else { j.real.is_ok() };
         acc.case(if nontrivial { Some(sig(&[id.as_bytes(), bytes])) } else { None });
+        if acc.samples.len() < 6 && class != "exhaustive" && class != "random" && !acc.samples.iter().any(|s| s.get("class").and_then(|c| c.as_str()) == Some(class)) {
+            acc.sample(
+                J::obj()
+                    .with("type", J::s(id))
+                    .with("class", J::s(class))
+                    .with("input", J::s(short(bytes)))
+                    .with("library", J::s(j.real.class()))
+                    .with("largest_single_allocation", J::u(j.stats.alloc.max_single as u64))
+                    .with("sequence_items", J::u(j.stats.steps)),
+            );
+        }
     };
 
     // (a) exhaustive short inputs
